@@ -1,5 +1,5 @@
 --------------------------------- MODULE MC_Node --------------------------------
 EXTENDS Node, TLC
-View == <<now, netHead, peers, stored, sampled, pruned, meta, bstore, sphase, subj, fetching,
+View == <<now, netHead, peers, stored, sampled, pruned, meta, bstore, sphase, subj, fetching, slowH,
           dphase, queue, ongoing, timedOut, promised, headH, batch>>
 =============================================================================
